@@ -573,13 +573,8 @@ class write_pdb_c:
          "do": ["let OUT = buffer.chunks",
                 "assert len(OUT) >= len(CX) and forall(lambda k: implies(0 <= k and k < len(CX), OUT[k] == CX[k]))",
                 "reveal MR(0)"]},
-        {"when": "before", "at": "content = buffer.getvalue()", "label": "atom-line-is-the-formatter-layout-of-the-row",
-         "do": [f"forall i | assert implies({_ALL}, LOK(i, LINES[i]))",
-                f"forall i | keep 1 | reveal LOK(i, LINES[i]) | assert implies({_ALL}, atom_line_ok(atom(df, i), LINES[i]))"]},
         {"when": "before", "at": "content = buffer.getvalue()", "label": "TER-after-the-last-atom-of-every-chain",
-         "do": [f"forall i | reveal SC(i) | assert implies({_ALL} and ends_chain(df, i), OUT[POS[i] + 1] == TER[i] + '\\n')",
-                f"forall i | assert implies({_ALL} and (i == nrows(df.id) - 1 or not SC(i)), TOK(i, TER[i]))",
-                f"forall i | keep 1 | reveal SC(i) | reveal TOK(i, TER[i]) | assert implies({_ALL} and ends_chain(df, i), ter_line_ok(atom(df, i), TER[i]))"]},
+         "do": [f"forall i | reveal SC(i) | assert implies({_ALL} and ends_chain(df, i), OUT[POS[i] + 1] == TER[i] + '\\n')"]},
         {"when": "before", "at": "content = buffer.getvalue()", "label": "ENDMDL-then-MODEL-at-every-model-change",
          "do": [_REV + f"implies({_PAIR} and not same_model(df, i, i + 1), OUT[POS[i] + 2] == 'ENDMDL\\n' "
                        "and OUT[POS[i] + 3] == model_record(atom(df, i + 1).model) and POS[i + 1] == POS[i] + 4)"]},
@@ -587,6 +582,13 @@ class write_pdb_c:
          "do": [_REV + f"implies({_PAIR} and same_chain(df, i, i + 1), POS[i + 1] == POS[i] + 1)"]},
         {"when": "before", "at": "content = buffer.getvalue()", "label": "only-TER-between-chains-of-one-model",
          "do": [_REV + f"implies({_PAIR} and same_model(df, i, i + 1) and not same_chain(df, i, i + 1), POS[i + 1] == POS[i] + 2)"]},
+        # (the two facts with string constraints under the quantifier come last: nothing after them has to live with them)
+        {"when": "before", "at": "content = buffer.getvalue()", "label": "TER-is-the-layout-of-the-chain's-last-atom",
+         "do": [f"forall i | assert implies({_ALL} and (i == nrows(df.id) - 1 or not SC(i)), TOK(i, TER[i]))",
+                f"forall i | keep 1 | reveal SC(i) | reveal TOK(i, TER[i]) | assert implies({_ALL} and ends_chain(df, i), ter_line_ok(atom(df, i), TER[i]))"]},
+        {"when": "before", "at": "content = buffer.getvalue()", "label": "atom-line-is-the-formatter-layout-of-the-row",
+         "do": [f"forall i | assert implies({_ALL}, LOK(i, LINES[i]))",
+                f"forall i | keep 1 | reveal LOK(i, LINES[i]) | assert implies({_ALL}, atom_line_ok(atom(df, i), LINES[i]))"]},
     ]
 
 
